@@ -698,3 +698,66 @@ pub fn generate_exhaustive<W: Write>(c: &mut Cases<W>, thorough: bool) {
         }
     }
 }
+
+/// Small-scope exhaustive iterator queries: for EVERY subset of a 5-key universe, every pair of bounds
+/// (unbounded / included / excluded x 6 probes = 13 bounds, 169 pairs) forward and reverse (C04), or
+/// every prefix of a 9-prefix set forward and reverse (C05).
+pub fn generate_iter_exhaustive<W: Write>(c: &mut Cases<W>, thorough: bool, which: &str) {
+    let universe: [Vec<u8>; 5] = [vec![], vec![0], vec![0, 0], vec![0, 255], vec![255]];
+    let probes: [Vec<u8>; 6] = [vec![], vec![0], vec![0, 0], vec![0, 1], vec![0, 255], vec![255]];
+    let prefixes: [Vec<u8>; 9] = [vec![], vec![0], vec![0, 0], vec![0, 255], vec![255], vec![255, 255], vec![1], vec![0, 254], vec![0, 0, 0]];
+    let mut bounds: Vec<Bound<Vec<u8>>> = vec![Bound::Unbounded];
+    for q in &probes {
+        bounds.push(Bound::Included(q.clone()));
+        bounds.push(Bound::Excluded(q.clone()));
+    }
+    let level_set: &[u8] = if thorough { &[0, 1, 2] } else { &[1] };
+    for &levels in level_set {
+        let cfg = FileCfg { codec: CompressionType::None, level: 0, block_size: 16, unclamped: true, interval: Some(1), levels };
+        for mask in 0u32..32 {
+            let es: Vec<(Vec<u8>, Vec<u8>)> = (0..5).filter(|i| mask & (1 << i) != 0).map(|i| (universe[i].clone(), vec![i as u8; 18])).collect();
+            let file = match write_file(&cfg, &es) {
+                WriteOutcome::File(f) => f,
+                _ => continue,
+            };
+            c.begin("iter");
+            c.line(&format!("prop {}", which));
+            c.line(&cfg.line());
+            c.line(&format!("file {}", hex(&file)));
+            for (k, v) in &es {
+                c.line(&format!("e {} {}", hex(k), hex(v)));
+            }
+            for rev in [false, true] {
+                if which == "C04" {
+                    for lo in &bounds {
+                        for hi in &bounds {
+                            let res = if rev {
+                                let mut it = Reader::new(Cursor::new(&file[..])).unwrap().into_rev_range_iter((lo.clone(), hi.clone())).unwrap();
+                                collect_iter(|| it.next().map(|o| o.map(|(k, v)| (k.to_vec(), v.to_vec()))).map_err(|e| err_class(&e)))
+                            } else {
+                                let mut it = Reader::new(Cursor::new(&file[..])).unwrap().into_range_iter((lo.clone(), hi.clone())).unwrap();
+                                collect_iter(|| it.next().map(|o| o.map(|(k, v)| (k.to_vec(), v.to_vec()))).map_err(|e| err_class(&e)))
+                            };
+                            c.line(&format!("q range {} {} {} = {}", bound_str(lo), bound_str(hi), if rev { "rev" } else { "fwd" }, res));
+                        }
+                    }
+                } else {
+                    for p in &prefixes {
+                        let res = if rev {
+                            let mut it = Reader::new(Cursor::new(&file[..])).unwrap().into_rev_prefix_iter(p.clone()).unwrap();
+                            collect_iter(|| it.next().map(|o| o.map(|(k, v)| (k.to_vec(), v.to_vec()))).map_err(|e| err_class(&e)))
+                        } else {
+                            let mut it = Reader::new(Cursor::new(&file[..])).unwrap().into_prefix_iter(p.clone()).unwrap();
+                            collect_iter(|| it.next().map(|o| o.map(|(k, v)| (k.to_vec(), v.to_vec()))).map_err(|e| err_class(&e)))
+                        };
+                        c.line(&format!("q prefix {} {} = {}", hex(p), if rev { "rev" } else { "fwd" }, res));
+                    }
+                }
+            }
+            if es.len() >= 2 {
+                c.nontrivial(&fnv(&file).to_le_bytes());
+            }
+            c.end();
+        }
+    }
+}
